@@ -37,7 +37,7 @@ static std::vector<Op> buildAlphabet(const std::string& name, Limits& L, const s
         A.push_back(opFrame("pt_missing", "0", 0, L)); A.push_back(opFrame("ch_extra", "n+1", 0, L));
         A.push_back(opFrame("addpoints", "0", 1, L)); A.push_back(opFrame("addanalogs", "0", 1, L));
         A.push_back(opFrame("sub_extra", "0", 1, L)); A.push_back(opFrame("sub_missing", "0", 1, L));   // the single stored frame replaced by one with another number of sub-frames
-        A.push_back(opBigObject(17, 5, 9)); A.push_back(opBulkPoints(33)); A.push_back(opBulkChans(17));
+        A.push_back(opBigObject(17, 5, 9)); A.push_back(opBulkPoints(33)); A.push_back(opBulkChans(17)); A.push_back(opBulkPoints(300));   // (300 names: more than one LABELS parameter holds on file; legal in memory)
         A.push_back(opSubmitStored(0, "n", L)); A.push_back(opSubmitStored(0, "app", L));   // a stored frame handed back to the object
         for (auto w : {"both", "pt", "an"}) A.push_back(opFrameFree(w, 0, L));
         A.push_back(opFrameEmpty(L));
@@ -47,6 +47,9 @@ static std::vector<Op> buildAlphabet(const std::string& name, Limits& L, const s
         A.push_back(opLock("NOPE", true)); A.push_back(opLock("NOPE", false));
         A.push_back(opParamMandatoryBad("POINT", "RATE", "int")); A.push_back(opParamMandatoryBad("POINT", "USED", "empty-int")); A.push_back(opParamMandatoryBad("ANALOG", "USED", "string")); A.push_back(opParamMandatoryBad("POINT", "FRAMES", "float"));   // (ANALOG:RATE is only read when POINT:RATE is set: not refused in every state, hence not generated)
         A.push_back(opReload());
+        // objects with hundreds of names are expensive in every descendant: only a few calls go on from them
+        for (auto& op : A) { bool keep = op.name == "reload" || op.name == "POINT:RATE=100" || op.name == "frame(ok,app,v0)" || op.name == "frame(pt_renamed,app,v0)" || op.name == "point(\"A\")" || op.name == "lockGroup(NOPE)";
+            if (!keep) { auto e = op.enabled; op.enabled = [e](const World& w, const WSnap& sn) { return pStrs(sn.o, "POINT", "LABELS").size() <= 64 && e(w, sn); }; } }
     } else if (name == "frames") {  // C06 / C08: frame targets, contents, caller registers, in-place edits
         L.maxFrames = thorough ? 5 : 4; L.maxPoints = 3; L.maxChans = 2; L.noRateEditWithData = true;
         for (auto n : {"A", "B"}) A.push_back(opPoint(n, L));
@@ -68,7 +71,7 @@ static std::vector<Op> buildAlphabet(const std::string& name, Limits& L, const s
     } else if (name == "c07") {     // C07: object states x deviations
         L.maxFrames = 2; L.maxPoints = 3; L.maxChans = 2;
         for (auto n : {"AB", "A", "C"}) A.push_back(opPoint(n, L));   // one label is a proper prefix of the other
-        if (thorough) A.push_back(opBulkPoints(300)); else A.push_back(opBulkPoints(40));   // more declared points than one LABELS parameter can hold on file (in memory that is legal)
+        A.push_back(opBulkPoints(300)); A.push_back(opBulkPoints(40));   // more declared points than one LABELS parameter can hold on file (in memory that is legal)
         for (auto n : {"a", "ab"}) A.push_back(opAnalog(n, L));
         for (float r : {0.f, 100.f, 0.5f}) A.push_back(opRate("POINT", r));    // 0.5 Hz: a rate that is set, yet truncates to 0
         for (float r : {0.f, 200.f, 0.5f}) A.push_back(opRate("ANALOG", r));
